@@ -143,6 +143,29 @@ def main(tier):
             run.count("wrap.not-ok")
         elif " ".join(fa[1:5]) != " ".join(fb[1:5]) or (sa and sb and sa.group(1) != sb.group(1)):
             run.violation("dice-inside-a-body-do-not-follow-the-context-generator", {"seed": seed, "plain": a[:300], "program": w, "wrapped": b[:300]})
+    # ---- a draw that was made stays made: a statement run through RunExpr that rolls and then FAILS has consumed its draws; the next die
+    #      of the context is the next draw of the stream
+    lines, meta = [], []
+    for body in (f"kept = {D}; 1/0", f"{D} + nosuch.x.y", f"[{D}, {D}][5]", f"kept = {D}; kept.foo()", f"{D}; 'a' - 1"):
+        ndraw = body.count(D)
+        for _ in range(3 if tier == "thorough" else 2):
+            seed = f"{r.getrandbits(128):032x}"
+            lines += [f"lazyseq L300000 {seed} none {hx(body)} {hx(D)} {hx(D)} +runexpr", f"runseq L300000 {seed} {hx('[' + ', '.join([D] * (2 + ndraw)) + ']')}"]
+            meta.append((body, ndraw, seed))
+    out = run.go_only("failed-runexpr", lines, go_timeout=120)
+    for i, (body, ndraw, seed) in enumerate(meta):
+        a, b = out[2 * i][1], out[2 * i + 1][1]
+        run.nontriv(("rxfail", body, seed))
+        pa = a.split(" | ")
+        mb = re.match(r"ok \[(.*?)\] ", b)
+        if len(pa) != 2 or not mb or not pa[0].startswith("ok ") or not pa[1].startswith("ok "):
+            run.count("rxfail.not-ok")
+            continue
+        want = mb.group(1).split()
+        got = [pa[0].split()[1], pa[1].split()[1]]
+        if got != [want[0], want[1 + ndraw]]:
+            run.violation("failed-statement-gave-its-draws-back", {"seed": seed, "failing_statement_run_through_RunExpr": body, "dice_before_and_after_it": got,
+                                                                   "the_stream": want, "expected": [want[0], want[1 + ndraw]]})
     # ---- a used context given another configuration and re-seeded: nothing of the earlier configuration may survive
     #      (compiled default-sides expressions, flags, modes)
     DS_EXPR = ["20", "6", "100", "2+2", "d4", "面数"]
